@@ -325,6 +325,7 @@ def run(tier, seed, out, drv, facts):
     same_context_continues(out)
     recursion_limit_sweep(out)
     after_failed_hooked_import(out)
+    base_class_transparency_case(out)
     annotation_reuse_cases(out)
     pickling_cases(out)
     # --- random histories of public-API operations, then probes
@@ -546,6 +547,39 @@ def after_failed_hooked_import(out):
                       f"into it is {got.get('plain')} (accepted), into the hooked module {got.get('good')} (rejected)", {"failed_hooked_import": True})
 
 
+def base_class_transparency_case(out):
+    """F2 with the base class as the annotation (known finding F2b), in a fresh interpreter because it changes every
+    annotation of the process"""
+    import subprocess
+
+    from common import PY, REPO
+
+    code = textwrap.dedent('''
+        import sys, json, typing
+        sys.path.insert(0, sys.argv[1])
+        import numpy as np, typeguard, jaxtyping
+        from jaxtyping import Float, jaxtyped
+        probe = lambda: [isinstance(np.zeros(3, np.int32), Float[np.ndarray, "2"]), isinstance(np.zeros(2, np.float32), Float[np.ndarray, "2"])]
+        before = probe()
+        @jaxtyped
+        @typeguard.typechecked
+        def g() -> typing.Iterator[jaxtyping.AbstractArray]:
+            yield np.zeros(2)
+        print(json.dumps({"before": before, "after": probe()}))
+    ''')
+    r = subprocess.run([PY, "-c", code, REPO], capture_output=True, text=True, timeout=300)
+    try:
+        got = json.loads(r.stdout.strip().splitlines()[-1])
+    except Exception:  # noqa: BLE001
+        out.count("base_class_transparency_not_run")
+        return
+    out.case(("base-class-transparency",), True, sample=got)
+    if got["before"] != [False, True] or got["after"] != [False, True]:
+        out.violation("history:annotation-changed:base-class-transparent", f"decorating (old style) a generator function annotated `-> Iterator[jaxtyping.AbstractArray]`: a wrong-dtype, "
+                      f"wrong-shape array against Float[ndarray, '2'] is {got['before'][0]} before and {got['after'][0]} after (a right one: {got['before'][1]} / {got['after'][1]})",
+                      {"base_class_transparency": True})
+
+
 def annotation_reuse_cases(out):
     """one annotation OBJECT checked again in another context: the verdict depends on that context's bindings and on the
     current call's arguments, never on what the object answered earlier for the same shape"""
@@ -673,6 +707,9 @@ def other_thread_cases(out):
 
 
 def replay(rep, out, drv, facts):
+    if "base_class_transparency" in rep:
+        base_class_transparency_case(out)
+        return
     if "recursion_sweep" in rep:
         recursion_limit_sweep(out)
         return
